@@ -315,3 +315,10 @@ pub proof fn lemma_words_repeat_hardline(n: nat)
     reveal_with_fuel(words, 3); reveal_with_fuel(alt_ok, 3); reveal_with_fuel(repeat_doc, 2);
     if n > 0 { lemma_words_repeat_hardline((n - 1) as nat); assert(Seq::<Seq<char>>::empty() + Seq::<Seq<char>>::empty() =~= Seq::<Seq<char>>::empty()); }
 }
+pub proof fn lemma_words_repeat_line(n: nat)
+    ensures w_ok(repeat_doc(DocV::Line, n), Seq::empty()),
+    decreases n,
+{
+    reveal_with_fuel(words, 3); reveal_with_fuel(alt_ok, 3); reveal_with_fuel(repeat_doc, 2);
+    if n > 0 { lemma_words_repeat_line((n - 1) as nat); assert(Seq::<Seq<char>>::empty() + Seq::<Seq<char>>::empty() =~= Seq::<Seq<char>>::empty()); }
+}
